@@ -46,6 +46,19 @@ Section Kdf2.
   Qed.
 End Kdf2.
 
+(* the specification's IGE pass equals the model of github.com/gotd/ige DecryptBlocks *)
+Lemma spec_xor_eq a b : Spec.xor a b = xor_bytes a b.
+Proof. revert b; induction a as [|x a IH]; intros [|y b]; cbn; try reflexivity. unfold Spec.xor in IH. rewrite IH. reflexivity. Qed.
+Lemma spec_ige_fold D bs : forall c m out,
+  snd (fold_left (Spec.ige_step D) bs (c, m, out)) = out ++ concat (ige_dec_blocks D c m bs).
+Proof.
+  induction bs as [|y t IH]; intros c m out; cbn [fold_left ige_dec_blocks concat].
+  - cbn. rewrite app_nil_r. reflexivity.
+  - unfold Spec.ige_step at 2. rewrite IH, !spec_xor_eq, app_assoc. reflexivity.
+Qed.
+Lemma spec_ige_eq D iv data : Spec.ige_decrypt D iv data = ige_dec_raw D iv data.
+Proof. unfold Spec.ige_decrypt, ige_dec_raw, Spec.substr. cbn [skipn]. apply spec_ige_fold. Qed.
+
 Section Kdf1.
   Variable sha1 : list Z -> list Z.
   Hypothesis sha1_len : forall m, length (sha1 m) = 20%nat.
@@ -163,7 +176,7 @@ Section Kdf1.
     { rewrite app_assoc. apply skipn_app_len. rewrite app_length, Hk, Lmk. reflexivity. }
     rewrite bytes_eqb_refl. cbn [negb].
     rewrite Lct, Lpd. change (Nat.eqb ((16 * 5) mod 16) 0) with true. cbn [negb].
-    fold key iv. unfold data.
+    fold key iv. unfold data. rewrite spec_ige_eq.
     rewrite (ige_raw_dec_enc (aes_enc key) (aes_dec key) gf flen iv padded 5 Liv Lpd).
     assert (Spec.s32 padded 28 = 40) as ->.
     { apply (s32_at padded (random ++ le_enc 8 msg_id ++ le_enc 4 0) 40 (payload ++ pad)).
